@@ -110,7 +110,7 @@ def compare(pid, case, ctx, cfgs, extended=False, expect=None, strata_fn=None):
                 out.append(obs(f"{cfg}|wrong:{e}->{bool(g)}",
                                {"query": fm.cond_text(B, A), "expected": e, "got": bool(g),
                                 "base": base_text(base), "qindex": i}))
-    if len(ctx.samples) < ctx.max_samples and ctx.record:
+    if len(ctx.samples) < ctx.max_samples and ctx.record and not case.get("exhaustive") and len(base) >= 2:
         ctx.sample({"base": base_text(base), "queries": [fm.cond_text(B, A) for _, B, A in queries],
                     "expected": {c: exp[c] for c in cfgs}})
     return out
@@ -134,3 +134,62 @@ def describe(case, extended=False):
     else:
         lines.append("reference: base not consistent in this mode")
     return "\n".join(lines)
+
+
+# --------------------------------------------------------------------------------------
+# exhaustive two-atom sub-domains (thorough tier)
+# --------------------------------------------------------------------------------------
+
+def dnf2(mask, atoms=("a", "b")):
+    n = len(atoms)
+    terms = []
+    for w in range(1 << n):
+        if (mask >> w) & 1:
+            terms.append(fm.conj([fm.V(a) if (w >> i) & 1 else fm.Not(fm.V(a)) for i, a in enumerate(atoms)]))
+    if not terms:
+        return fm.And(fm.V(atoms[0]), fm.Not(fm.V(atoms[0])))
+    if len(terms) == 1 << n:
+        return fm.Or(fm.V(atoms[0]), fm.Not(fm.V(atoms[0])))
+    return fm.disj(terms)
+
+
+def all_queries2():
+    forms = [dnf2(m) for m in range(16)]
+    return [(forms[b], forms[a]) for a in range(16) for b in range(16)]
+
+
+def exhaustive_one_conditional(shard, nshards, ctx, chunk=32):
+    """every consistent one-conditional base over two atoms (all 16 x 16 semantic
+    conditionals) x all 256 semantic queries"""
+    forms = [dnf2(m) for m in range(16)]
+    qs = all_queries2()
+    idx = 0
+    for a in range(16):
+        for b in range(16):
+            A, B = forms[a], forms[b]
+            if not (fm.tt(A, ("a", "b")) & fm.tt(B, ("a", "b"))):
+                continue  # not verifiable: inconsistent base
+            for off in range(0, len(qs), chunk):
+                idx += 1
+                if idx % nshards != shard:
+                    continue
+                ctx.stratum("exhaustive:one-conditional-2atoms")
+                yield gen.mk_case(["a", "b"], [(B, A)], qs[off:off + chunk], exhaustive=True)
+    ctx.extra["exhaustive_domains"] = ["all consistent one-conditional bases over two atoms x all 256 semantic queries"]
+
+
+def corpus484(shard, nshards, ctx, chunk=64):
+    """the shipped 484 inference-relation representatives x all 256 semantic queries"""
+    from .. import rel
+    qs = all_queries2()
+    idx = 0
+    for kb, q, *_ in rel.corpus_refs(2, 2, families=["484"]):
+        atoms, base, _ = rel.load_corpus(kb, q)
+        for off in range(0, len(qs), chunk):
+            idx += 1
+            if idx % nshards != shard:
+                continue
+            ctx.stratum("exhaustive:484-corpus")
+            c = gen.mk_case(atoms, [(B, A) for _, B, A in base], qs[off:off + chunk], exhaustive=True)
+            yield c
+    ctx.extra.setdefault("exhaustive_domains", []).append("484 two-atom inference-relation representatives x all 256 semantic queries")
